@@ -20,18 +20,18 @@ Environment (`EnvStep`): the link stays up (`en`); the partner acknowledges only
 header (`cred`).  Credit-letter and sequence *mismatches* are not excluded: they simply do not count
 (`creditReceived`, `retire` are false) and raise `recovery_required` (`mismatch_requests_recovery`).
 
-`lbad_retransmits_all_unacked_in_order_with_dl_partial`: proved are (i) the buffers between the
-acknowledge pointer and the write pointer hold exactly the unacknowledged headers in order (invariant
-`hwin`), (ii) an LBAD reloads the read pointer with the acknowledge pointer, the send counter with the
-number of unacknowledged headers (plus one enqueued in the same cycle) and sets `retry_pending` in every
-state, (iii) a packet in flight never advances the reloaded pointer (FLUSH_PACKET / WAIT_FOR_SEND do
-not dequeue), (iv) in WAIT_FOR_RETRY every header handed to the raw transmitter is `buffers[read
-pointer]` with the delayed bit set, generation waits for `lrty_pending` to clear, each completion
-advances the pointer by one and the state is left only when the counter runs out, and from
-DISPATCH_PACKET a pending retry always leads to WAIT_FOR_RETRY.  NOT proved: the composition of (ii)-(iv)
-over the unbounded waiting times into one statement about the sequence of transmitted headers ("the next
-m headers on the wire are the m unacknowledged ones, in order, with DL"); that sequence is checked by the
-monitor on every co-simulated trace.
+Part (4) of the property (retransmission after LBAD) is proved at history level in `Props/C39Retry.lean`
+(`lbad_retransmits_all_unacked_in_order_with_dl`, built on `Lemmas/C39Round.lean` — control invariant,
+one preservation lemma per FSM state — and `Lemmas/C39RoundRun.lean` — the ghost retry round and the
+induction over the history).  This file keeps the one-step facts (`lbad_retry_one_step_facts`): (ii) an
+LBAD reloads the read pointer with the acknowledge pointer, the send counter with the number of
+unacknowledged headers (plus one enqueued in the same cycle) and sets `retry_pending` in every state,
+(iii) a packet in flight never advances the reloaded pointer (FLUSH_PACKET / WAIT_FOR_SEND do not
+dequeue), (iv) in WAIT_FOR_RETRY every header handed to the raw transmitter is `buffers[read pointer]`
+with the delayed bit set, generation waits for `lrty_pending` to clear, each completion advances the
+pointer by one and the state is left only when the counter runs out, and from DISPATCH_PACKET a pending
+retry always leads to WAIT_FOR_RETRY; and (i) the invariant `hwin`: the buffers between the acknowledge
+pointer and the write pointer hold exactly the unacknowledged headers in order.
 -/
 namespace LunaVerif.PacketTx
 open LunaVerif.HeaderRx (Hdr Bufs bufQ bufQ_pop bufQ_push bufQ_both)
@@ -330,7 +330,7 @@ theorem mismatch_requests_recovery (c : Config) (s : State) (i : In) :
 
 /-! ### (4) retransmission after LBAD -/
 
-/-- **C39 (4), partial** — see the module comment for what is and is not covered.
+/-- **C39 (4), one-step facts** (the history-level theorem is in `Props/C39Retry.lean`).
 (ii) an LBAD (while the link is up) reloads read pointer and send counter from the acknowledge pointer /
 the number of unacknowledged headers and sets `retry_pending`, in every state;
 (iii) FLUSH_PACKET and a WAIT_FOR_SEND with a pending retry never dequeue, so a packet in flight cannot
@@ -338,7 +338,7 @@ advance the reloaded pointer; (iv) in WAIT_FOR_RETRY the header offered to the r
 `buffers[read pointer]` with the delayed bit set, nothing is generated while `lrty_pending`, a completion
 advances the pointer by one, the state is left only on the last completion or for FLUSH_PACKET, and
 DISPATCH_PACKET with a retry pending goes to WAIT_FOR_RETRY. -/
-theorem lbad_retransmits_all_unacked_in_order_with_dl_partial (c : Config) (s : State) (i : In)
+theorem lbad_retry_one_step_facts (c : Config) (s : State) (i : In)
     (hen : i.enable = true) :
     (retryRequired s = true →
         (step c s i).1.rp = s.ap ∧ (step c s i).1.retryPending = true ∧
